@@ -88,6 +88,8 @@ impl Input for StrInput<'_> {
     fn skip_n(&mut self, count: usize) {
         let mut chars = self.buffer.chars();
         for _ in 0..count {
+            #[cfg(saphyr_verif)]
+            crate::verif_hooks::work_tick();
             if chars.next().is_none() {
                 break;
             }
@@ -104,6 +106,8 @@ impl Input for StrInput<'_> {
     fn peek_nth(&self, n: usize) -> char {
         let mut chars = self.buffer.chars();
         for _ in 0..n {
+            #[cfg(saphyr_verif)]
+            crate::verif_hooks::work_tick();
             if chars.next().is_none() {
                 return '\0';
             }
@@ -194,6 +198,8 @@ impl Input for StrInput<'_> {
         // while keeping track of whether we encountered spaces and/or tabs.
         if skip_tabs == SkipTabs::Yes {
             loop {
+                #[cfg(saphyr_verif)]
+                crate::verif_hooks::work_tick();
                 if let Some(sub_str) = new_str.strip_prefix(' ') {
                     has_yaml_ws = true;
                     new_str = sub_str;
@@ -206,6 +212,8 @@ impl Input for StrInput<'_> {
             }
         } else {
             while let Some(sub_str) = new_str.strip_prefix(' ') {
+                #[cfg(saphyr_verif)]
+                crate::verif_hooks::work_tick();
                 has_yaml_ws = true;
                 new_str = sub_str;
             }
@@ -225,6 +233,8 @@ impl Input for StrInput<'_> {
 
             // Skip remaining characters until we hit a breakz.
             while let Some((c, sub_str)) = split_first_char(new_str) {
+                #[cfg(saphyr_verif)]
+                crate::verif_hooks::work_tick();
                 if is_breakz(c) {
                     break;
                 }
@@ -318,6 +328,8 @@ impl Input for StrInput<'_> {
 
         // Skip over all non-breaks.
         while let Some((c, sub_str)) = split_first_char(new_str) {
+            #[cfg(saphyr_verif)]
+            crate::verif_hooks::work_tick();
             if is_breakz(c) {
                 break;
             }
@@ -334,6 +346,8 @@ impl Input for StrInput<'_> {
         // Since all characters we look for are ascii, we can directly use the byte API of str.
         let mut i = 0;
         while i < self.buffer.len() {
+            #[cfg(saphyr_verif)]
+            crate::verif_hooks::work_tick();
             if !is_blank(self.buffer.as_bytes()[i] as char) {
                 break;
             }
@@ -349,6 +363,8 @@ impl Input for StrInput<'_> {
         // Skip while we have alpha characters.
         let mut chars = self.buffer.chars();
         for c in chars.by_ref() {
+            #[cfg(saphyr_verif)]
+            crate::verif_hooks::work_tick();
             if !is_alpha(c) {
                 not_alpha = Some(c);
                 break;
